@@ -20,6 +20,8 @@ records in one totally ordered trace) plus the primitive's *public* counters:
 Barging of a request that never blocked is not judged (the statement orders blocked acquirers only)."""
 from __future__ import annotations
 
+from fractions import Fraction
+
 from hypothesis import strategies as st
 
 from ..dsl.workers import WorkerRun, stepwise
@@ -28,7 +30,7 @@ from ..runner import Obligation, Result
 
 P = "C09"
 ASSUMPTIONS = [
-    "amounts are positive and <= capacity (documented ValueError otherwise); Resource amounts are ints or multiples of 1/4 (exact in binary floating point)",
+    "amounts are positive and <= capacity (documented ValueError otherwise); Resource amounts are ints, multiples of 1/4 (exact in binary floating point), decimal tenths against capacity 0.1-0.5, or quarters +/- 2^-31 (4.7e-10) and tiny amounts 2^-30, 2^-31 (dyadic, so the primitive's own float arithmetic is exact); for the float modes sums are exact rationals of the float values and a slack of 1e-12 x capacity absorbs only the round-off of the primitive's own `available` (over-admission = outstanding grants exceed capacity by more than that, or available below -slack; a request is said to fit only if it fits with that margin)",
     "hold times and start offsets are multiples of 1/512 s (exact both as float seconds and integer ns)",
     "only capacity that was granted is released, once per grant (a second Grant.release() is exercised because it is documented as a no-op)",
     "barging by a request that never blocked is not judged; order is judged among blocked requests only",
@@ -67,8 +69,12 @@ class CapJudge:
 
     kind: 'amount' (capacity + available public), 'mutex' (is_locked), 'rw' (active_readers, is_write_locked)."""
 
-    def __init__(self, bad, kind, comp, cap=1, max_readers=None, prio=False):
+    def __init__(self, bad, kind, comp, cap=1, max_readers=None, prio=False, tol=0):
         self.bad, self.kind, self.comp, self.cap, self.max_r, self.prio = bad, kind, comp, cap, max_readers, prio
+        # float amounts: sums are exact rationals of the float values (the oracle adds no round-off of its own); `tol`
+        # (1e-12 x capacity, 0 for ints and quarters) only absorbs the round-off in the primitive's own float `available`
+        self.tol = tol
+        self.F = Fraction if tol else (lambda x: x)
         self.held = []          # requests currently held according to the trace
         self.pending = []       # blocked requests not yet observed granted, in arrival order
         self.nreq = 0
@@ -78,16 +84,22 @@ class CapJudge:
     # ---- model helpers
     def limit_ok(self, held):
         if self.kind == "amount":
-            return sum(q["a"] for q in held) <= self.cap
+            return sum(self.F(q["a"]) for q in held) <= self.F(self.cap) + self.tol
         if self.kind == "mutex":
             return len(held) <= 1
         nw = sum(1 for q in held if q["m"] == "w")
         nr = len(held) - nw
         return nw <= 1 and (nw == 0 or nr == 0) and (self.max_r is None or nr <= self.max_r)
 
+    def fits(self, held, q):
+        """q certainly fits beside `held` (float amounts: by more than the round-off allowance)."""
+        if self.kind == "amount" and self.tol:
+            return sum(self.F(x["a"]) for x in held) + self.F(q["a"]) <= self.F(self.cap) - self.tol
+        return self.limit_ok(held + [q])
+
     def vec(self, reqs):
         if self.kind == "amount":
-            return (sum(q["a"] for q in reqs),)
+            return (sum(self.F(q["a"]) for q in reqs),)
         if self.kind == "mutex":
             return (len(reqs),)
         nw = sum(1 for q in reqs if q["m"] == "w")
@@ -96,7 +108,7 @@ class CapJudge:
     def public(self):
         c = self.comp
         if self.kind == "amount":
-            return (self.cap - c.available,)
+            return (self.F(self.cap) - self.F(c.available),)
         if self.kind == "mutex":
             return (1 if c.is_locked else 0,)
         return (c.active_readers, 1 if c.is_write_locked else 0)
@@ -130,7 +142,7 @@ class CapJudge:
                 earlier = [p for p in self.pending if p["idx"] < q["idx"]]
             if earlier:
                 need, have = self.vec(earlier), self.inflight()
-                if any(h < n for h, n in zip(have, need)):
+                if any(h < n - self.tol for h, n in zip(have, need)):
                     self.bad("blocked-order", f"at {ms(t)} w{q['w']} (blocked as #{q['idx']}) holds while earlier blocked "
                              f"{[(p['w'], p['m'], p['a'], p['idx']) for p in earlier]} own nothing yet "
                              f"(granted-but-unobserved per public counters {have}, needed {need})")
@@ -143,16 +155,16 @@ class CapJudge:
     def sample(self, t):
         if self.kind == "amount":
             av = self.comp.available
-            if av < 0 or av > self.cap:
+            if av < -self.tol or av > self.cap + self.tol:
                 self.bad("available-out-of-range", f"available={av} capacity={self.cap} at {ms(t)}")
         fl = self.inflight()
-        if any(x < 0 for x in fl):
+        if any(x < -self.tol for x in fl):
             self.bad("held-plus-available-not-capacity/after-event",
                      f"at {ms(t)} trace holds {self.vec(self.held)} but public counters say in use {self.public()}")
 
     def quiescent(self, t, moving=True):
         fl = self.inflight()
-        if any(x != 0 for x in fl):
+        if any(abs(x) > self.tol for x in fl):
             self.bad("held-plus-available-not-capacity/at-quiescence",
                      f"end of instant {ms(t)}: trace holds {self.vec(self.held)}, public counters say in use {self.public()}")
         elif moving and self.pending:
@@ -160,7 +172,7 @@ class CapJudge:
                 head = min(self.pending, key=lambda p: (p["p"], p["idx"]))
             else:
                 head = self.pending[0]
-            if self.limit_ok(self.held + [head]):
+            if self.fits(self.held, head):
                 self.bad("stranded-head-waiter", f"clock leaves {ms(t)} while blocked w{head['w']} "
                          f"({head['m']},{head['a']}) fits: holders {[(h['w'], h['m'], h['a']) for h in self.held]} limit {self.cap}")
 
@@ -196,7 +208,7 @@ def cap_strategy(safe):
         start = st.sampled_from([0, 0, 0, 1, 2, 3])
         worker = st.fixed_dictionaries({"start": start, "ops": _ops(hold)})
         return st.fixed_dictionaries({
-            "cap": st.integers(1, 5), "q": st.sampled_from([1, 1, 1, 4]), "mr": st.integers(0, 3),
+            "cap": st.integers(1, 5), "q": st.sampled_from([1, 1, 1, 4, 10, 7, 7]), "mr": st.integers(0, 3),
             "workers": st.lists(worker, min_size=2, max_size=8 if big else 6),
         })
     return s
@@ -207,6 +219,13 @@ def _build(prim, case):
     cap = 1 + (int(case.get("cap", 1)) - 1) % 5
     if prim == "resource":
         from happysimulator.components.resource import Resource
+        q = case.get("q")
+        if q == 10:                       # decimal fractions: capacity 0.1 .. 0.5, grants of 0.1 .. 0.5
+            capf = cap / 10
+            return Resource("res", capf), dict(kind="amount", cap=capf, tol=1e-12 * capf)
+        if q == 7:                        # quarters plus amounts a hair (2^-31) above / below them and tiny amounts (2^-30, 2^-31; all <= 1e-9)
+            capf = cap * 0.25
+            return Resource("res", capf), dict(kind="amount", cap=capf, tol=1e-12 * capf)
         return Resource("res", cap), dict(kind="amount", cap=cap)
     if prim == "preemptible":
         from happysimulator.components.industrial.preemptible_resource import PreemptibleResource
@@ -232,12 +251,21 @@ def lock_execute(prim, obl):
         J = CapJudge(bad, comp=comp, **jargs)
         cap = J.cap
         q4 = prim == "resource" and case.get("q") == 4
+        qmode = case.get("q") if prim == "resource" else None
         wl = [w for w in (case.get("workers") or []) if isinstance(w, dict)][:10]
 
         def amount(op):
             if prim in ("mutex", "rwlock"):
                 return 1
             a = int(op.get("a", 0))
+            if qmode == 10:
+                return min((1 + a % 5) / 10, cap)
+            if qmode == 7:
+                k = (1 + a % 5) * 0.25
+                # hairs are powers of two (2^-31 = 4.7e-10, 2^-30 = 9.3e-10 <= 1e-9): every sum and difference the
+                # primitive forms is exact in binary floating point, so its own arithmetic cannot drift
+                v = [k, k, k + 2.0 ** -31, 2.0 ** -30, 2.0 ** -31, k - 2.0 ** -31][int(op.get("m", 0)) % 6]
+                return min(v, cap)
             return (1 + a % (cap * 4)) / 4 if q4 else 1 + a % cap
 
         def op_fn(run, wk, j, op):
@@ -249,7 +277,7 @@ def lock_execute(prim, obl):
             handle = None
             if x == 0 and prim in ("resource", "mutex", "semaphore"):
                 # non-blocking attempt
-                free_before = J.limit_ok(J.held + [q]) and not any(J.inflight()) and not J.pending
+                free_before = J.fits(J.held, q) and not any(abs(x) > J.tol for x in J.inflight()) and not J.pending
                 if prim == "resource":
                     handle = comp.try_acquire(q["a"])
                     ok = handle is not None
@@ -330,7 +358,7 @@ def lock_execute(prim, obl):
             if not run.all_done:
                 bad("waiter-never-served", f"run ended at {ms(run.t)} with unfinished workers {run.unfinished()} "
                     f"blocked {[(p['w'], p['m'], p['a']) for p in J.pending]} holders {[(h['w']) for h in J.held]}")
-            elif J.held or any(J.public()):
+            elif J.held or any(abs(x) > J.tol for x in J.public()):
                 bad("leak-at-end", f"all workers finished but in use per public counters {J.public()}, trace {J.vec(J.held)}")
         starts = [int(w.get("start", 0)) for w in wl]
         r.nontrivial = J.n_blocked_granted > 0
